@@ -12,7 +12,7 @@ from harness.runner import Result
 PROPERTY = "C02"
 LEVEL = "exploration"
 RULE = (
-    "case = rotation vector psi (norm log-uniform in [1e-9,pi), uniform, pi-10^-k for k=1..12, or 0; random, "
+    "case = rotation vector psi (norm log-uniform in [1e-9,pi) or [1e-30,pi), uniform, pi-10^-k for k=1..12, or 0; random, "
     "axis-aligned and zero-component axes), a rotation matrix A built in 40-digit arithmetic and rounded to "
     "float64 from {psi, a scaled quaternion, an exact half-turn 2nn^T-I, a half-turn perturbed by a rotation of "
     "1e-k}, a tangent-map rotation vector with norm in [0,2pi-1e-6], a rate psi_dot and a translation r. "
@@ -42,7 +42,7 @@ LEVEL_NOTE = "trusted: mpmath; tolerances as stated in assumptions"
 
 @st.composite
 def _case(draw):
-    psi = draw(gen.rotvec())
+    psi = draw(gen.rotvec(min_exp=draw(st.sampled_from([-9, -9, -30]))))
     kindA = draw(st.sampled_from(["psi", "quat", "half", "half_pert", "half_axis"]))
     spec = {"psi": psi, "kindA": kindA}
     if kindA == "quat":
@@ -61,7 +61,7 @@ def _case(draw):
     ax = np.array(draw(gen.unit_vec3()))
     tk = draw(st.sampled_from(["log", "uniform", "near2pi"]))
     if tk == "log":
-        a = draw(gen.log_uniform(-9, math.log10(2 * math.pi - 1e-6)))
+        a = draw(gen.log_uniform(draw(st.sampled_from([-9, -9, -30])), math.log10(2 * math.pi - 1e-6)))
     elif tk == "uniform":
         a = draw(gen.f(0.0, 2 * math.pi - 1e-6))
     else:
